@@ -11,7 +11,7 @@ EXTENDS Core
 CONSTANTS MCKinds,     \* input kinds explored
           MaxSteps,    \* bound on the number of inputs
           NSess,       \* number of session names used
-          MCHist       \* TRUE: the realm is configured with event history
+          MCMode       \* "" | "hist" (realm with event history) | "authz" (realm with an authorizer)
 
 VARIABLES last,        \* the last input
           steps,
@@ -122,7 +122,11 @@ Observe(i) ==
                          (<<i.s, i.req>> :> [callee |-> sm[1], inv |-> sm[2].req, reg |-> sm[2].a]) @@ callinfo
                     ELSE callinfo
 
-Do(i, S) == Commit(S) /\ Observe(i)
+Do(i, S) ==
+  /\ LET dec == IF MsgType(i) = "" THEN "allow" ELSE Decision(Cur, i.s, MsgType(i)) IN
+     IF dec \in {"allow", "rewrite"} THEN Commit(S)
+     ELSE Commit(RefuseFx(Cur, i.s, TypeCode(MsgType(i)), IF i.op = "yield" THEN i.id ELSE i.req, dec, i.op = "publish" /\ ~i.o.ack))
+  /\ Observe(i)
 
 \* --------------------------------------------------------------------------
 \* inputs over small domains
@@ -130,6 +134,7 @@ PubOptSet == {O0, [O0 EXCEPT !.ack = TRUE], [O0 EXCEPT !.xme = "f"], [O0 EXCEPT 
              \cup {[O0 EXCEPT !.hx = TRUE, !.xl = <<sess[s].id>>] : s \in DOMAIN sess}
              \cup {[O0 EXCEPT !.he = TRUE, !.el = <<sess[s].id>>, !.xme = "f"] : s \in DOMAIN sess}
              \cup {[O0 EXCEPT !.ea = <<[a |-> "color", v |-> <<"red">>]>>], [O0 EXCEPT !.xa = <<[a |-> "authrole", v |-> <<"trusted">>]>>]}
+             \cup (IF "disc" \in MCKinds THEN {[O0 EXCEPT !.dme = TRUE, !.xme = "f"], [O0 EXCEPT !.dme = TRUE, !.ack = TRUE]} ELSE {})
 
 MCNext ==
   /\ steps < MaxSteps
@@ -148,16 +153,16 @@ MCNext ==
              Do([In0 EXCEPT !.op = "publish", !.s = s, !.req = N, !.uri = u, !.o = o],
                 PublishReqFx(Cur, s, N, u, o, NextId(used.pub), "p"))
      \/ /\ "reg" \in MCKinds
-        /\ \E s \in J, k \in Keys, pol \in {"", "roundrobin", "first"} :
-             LET o == [O0 EXCEPT !.match = k[2], !.invoke = pol] IN
+        /\ \E s \in J, k \in Keys, pol \in {"", "roundrobin", "first"}, dcl \in (IF "disc" \in MCKinds THEN BOOLEAN ELSE {FALSE}) :
+             LET o == [O0 EXCEPT !.match = k[2], !.invoke = pol, !.dcl = dcl] IN
              Do([In0 EXCEPT !.op = "register", !.s = s, !.req = N, !.uri = k[1], !.o = o],
                 RegisterFx(Cur, s, N, k[1], o, NextId(used.reg)))
      \/ /\ "unreg" \in MCKinds
         /\ \E s \in J, id \in used.reg \cup {99} :
              Do([In0 EXCEPT !.op = "unregister", !.s = s, !.req = N, !.id = id], UnregisterFx(Cur, s, N, id))
      \/ /\ "call" \in MCKinds
-        /\ \E s \in J, u \in Targets, tmo \in {0, 2}, rp \in BOOLEAN :
-             LET o == [O0 EXCEPT !.tmo = tmo, !.rprog = rp]
+        /\ \E s \in J, u \in Targets, tmo \in {0, 2}, rp \in BOOLEAN, dme \in (IF "disc" \in MCKinds THEN BOOLEAN ELSE {FALSE}) :
+             LET o == [O0 EXCEPT !.tmo = tmo, !.rprog = rp, !.dme = dme]
                  i == [In0 EXCEPT !.op = "call", !.s = s, !.req = N, !.uri = u, !.o = o] IN
              IF BestRegs(Cur, u) = {} THEN Do(i, CallFx(Cur, s, N, u, o, "p", <<>>, "", 0))
              ELSE \E k \in BestRegs(Cur, u) : \E callee \in Eligible(regs[k]) :
@@ -195,8 +200,16 @@ MCNext ==
      \/ /\ "adv" \in MCKinds
         /\ \E ms \in {1, 2} : Do([In0 EXCEPT !.op = "advance", !.id = ms], AdvanceFx(Cur, ms))
 
-MCInit == /\ InitWith([InitCfg EXCEPT !.users = <<[id |-> "alice", role |-> "user"]>>, !.disclose = TRUE,
-                                       !.hcfg = IF MCHist THEN <<[u |-> U_a, m |-> "prefix", n |-> 2], [u |-> U_ab, m |-> "", n |-> 1]>>
+MCInit == /\ \E disc \in (IF "disc" \in MCKinds THEN BOOLEAN ELSE {TRUE}) :
+             InitWith([InitCfg EXCEPT !.users = <<[id |-> "alice", role |-> "user"]>>, !.disclose = disc,
+                                       !.authz = IF MCMode = "authz"
+                                                 THEN <<[mt |-> "PUBLISH", who |-> "remote", dec |-> "deny"],
+                                                        [mt |-> "SUBSCRIBE", who |-> "trusted", dec |-> "fail"],
+                                                        [mt |-> "CALL", who |-> "remote", dec |-> "deny"],
+                                                        [mt |-> "REGISTER", who |-> "user", dec |-> "fail"],
+                                                        [mt |-> "YIELD", who |-> "any", dec |-> "deny"]>> ELSE <<>>,
+                                       !.lauthz = MCMode = "authz",
+                                       !.hcfg = IF MCMode = "hist" THEN <<[u |-> U_a, m |-> "prefix", n |-> 2], [u |-> U_ab, m |-> "", n |-> 1]>>
                                                 ELSE <<>>])
           /\ publog = <<>>
           /\ last = In0 /\ steps = 0 /\ held = <<>> /\ regd = <<>> /\ issued = {} /\ replies = <<>>
@@ -299,6 +312,39 @@ C18_Kill ==
      /\ \A s \in DOMAIN sess : (sess[s].id = last.id /\ s # last.s) => s \notin J
 \* testaments are published exactly once: never kept beyond the session
 C18_Testaments == \A s \in DOMAIN tst : s \notin J => tst[s] = <<>>
+
+\* --- C10 (action property): a refused message changes no table, reaches nobody
+\* else, and is answered by at most one ERROR of its own type and id
+RefusedNow == /\ MsgType(last') # "" /\ last'.s \in J
+              /\ Decision(Cur, last'.s, MsgType(last')) \in {"deny", "fail"}
+C10_Refusal ==
+  [][RefusedNow =>
+       /\ UNCHANGED <<sess, subs, regs, calls, hist, tst, used>>
+       /\ \A s \in DOMAIN out' : s # last'.s => out'[s] = <<>>
+       /\ LET mine == out'[last'.s] IN
+            /\ Len(mine) <= 1
+            /\ (last'.op = "publish" /\ ~last'.o.ack) => mine = <<>>
+            /\ ~(last'.op = "publish" /\ ~last'.o.ack) =>
+                  /\ Len(mine) = 1 /\ mine[1].k = "ERROR" /\ mine[1].a = TypeCode(MsgType(last'))
+                  /\ mine[1].e \in {ErrNotAuthorized, ErrAuthzFailed}]_mvars
+
+\* --- C12: identity is disclosed only when allowed and only to recipients entitled to it
+C12_EventDisclosure ==
+  \A s \in DOMAIN out : \A m \in Rng(out[s]) :
+     (m.k = "EVENT" /\ m.d # {}) =>
+        /\ last.op = "publish" /\ last.o.dme /\ cfg.disclose
+        /\ "subscriber:publisher_identification" \in sess[s].feats
+        /\ <<"publisher", ToString(sess[last.s].id)>> \in m.d
+C12_CallerDisclosure ==
+  \A s \in DOMAIN out : \A m \in Rng(out[s]) :
+     (m.k = "INVOCATION" /\ \E p \in m.d : p[1] = "caller") =>
+        /\ last.op = "call"
+        /\ \/ \E k \in DOMAIN regs : regs[k].id = m.a /\ regs[k].disclose
+           \/ (last.o.dme /\ cfg.disclose /\ "callee:caller_identification" \in sess[s].feats)
+        /\ <<"caller", ToString(sess[last.s].id)>> \in m.d
+C12_RefusedDisclosure ==
+  (last.op = "publish" /\ last.o.dme /\ ~cfg.disclose /\ ValidURI(cfg.strict, "exact", last.uri)) =>
+     \A s \in DOMAIN out : \A m \in Rng(out[s]) : m.k # "EVENT"
 
 \* --- C20: what is retained for a history subscription is exactly the last N
 \* unrestricted publications matching it, whoever was subscribed meanwhile
